@@ -72,7 +72,7 @@ def spec(tier, seed):
     ] + [
         Harness("c07_vacuity_witness", expect_fail=True, obligation="twin", timeout_s=600),
     ]
-    u = Unit("c07", generate, hs, jobs=3, workers=1)
+    u = Unit("c07", generate, hs, jobs=3, workers=1, quick_extra=2)
     return PropSpec("C07", [u], native_replay=native_replay,
                     assumptions=["mock database iterator: stores all L events (confirmed or not) and returns single-event commits one per batch; limit 0 => None (as BucketIter::next_batch)",
                                  "the handler bodies are taken as statement ranges with `.await` stripped: scheduling of the spawned task is not modelled (the gating logic is sequential code)"],
